@@ -11,7 +11,7 @@ import pytree
 ROOT = os.path.dirname(os.path.dirname(os.path.dirname(os.path.abspath(__file__))))
 PY312 = "/root/.pyenv/versions/3.12.1/bin/python3"
 
-SPEC_ONLY_FIELDS = {"src", "elifForm", "star", "parTarget", "bareGen", "noTrail"}
+SPEC_ONLY_FIELDS = {"src", "elifForm", "star", "parTarget", "bareGen", "noTrail", "ell"}
 
 
 OPTIONAL_NAMES = {"arg", "asname", "module", "name", "rest", "kind"}
@@ -43,7 +43,7 @@ class Layout:
     """how tokens become text; every choice keeps the token sequence unchanged"""
 
     def __init__(self, eol="\n", indent="    ", sep=" ", bom=False, trailing_newline=True, comment=None, blank=None,
-                 ff=False, join=0, brk=False, semi=False, trail=""):
+                 ff=False, join=0, brk=False, semi=False, trail="", tight=False):
         self.eol, self.indent, self.sep, self.bom, self.trailing_newline = eol, indent, sep, bom, trailing_newline
         self.comment, self.blank = comment, blank
         self.ff = ff            # a form feed before the first token of top-level lines
@@ -51,11 +51,43 @@ class Layout:
         self.brk = brk          # a line break after every opening bracket
         self.semi = semi        # consecutive simple statements joined with ';'
         self.trail = trail      # trailing whitespace before each line end
+        self.tight = tight      # no space between tokens unless leaving it out would change the token sequence
 
 
 CANON = Layout()
 COMPOUND_START = {"if", "while", "for", "with", "try", "def", "class", "async", "match", "@", "elif", "else", "except", "finally", "case"}
 OPEN, CLOSE = {"(", "[", "{"}, {")", "]", "}"}
+
+
+def _wordy(ch):
+    return ch.isalnum() or ch == "_" or ord(ch) > 127
+
+
+def needs_space(prev, nxt):
+    """conservative: may two adjacent tokens be written without a space and still be these two tokens?"""
+    a, b = prev[-1], nxt[0]
+    if _wordy(a) and (_wordy(b) or b in "'\""):
+        return True
+    if (a == "." and b.isdigit()) or (a.isdigit() and b == "."):
+        return True
+    if a in "+-*/%&|^<>=!~@:." and b in "=*/<>&|.+-:>":
+        return True
+    return False
+
+
+def token_strings(text):
+    """the reference tokenizer's token texts (layout tokens dropped), or None"""
+    import io
+    import tokenize
+    out = []
+    try:
+        for t in tokenize.generate_tokens(io.StringIO(text.lstrip("\ufeff")).readline):
+            if t.type in (tokenize.NL, tokenize.NEWLINE, tokenize.INDENT, tokenize.DEDENT, tokenize.ENDMARKER, tokenize.COMMENT):
+                continue
+            out.append(t.string)
+    except (tokenize.TokenError, SyntaxError, IndentationError):
+        return None
+    return out
 
 
 def realize(case, layout=CANON, names=None):
@@ -92,7 +124,8 @@ def realize(case, layout=CANON, names=None):
                 emit(layout.indent * depth)
                 bol = False
             elif line_has_tok:
-                emit(layout.sep)
+                if not (layout.tight and not needs_space(last_tok, s)):
+                    emit(layout.sep)
             if not line_has_tok:
                 line_first = s
             for p in pendingB:
